@@ -150,11 +150,47 @@ func isFieldFlow(v ssa.Value) bool {
 	v = stripConv(v)
 	switch x := v.(type) {
 	case *ssa.Field:
+		if ld, ok := x.X.(*ssa.UnOp); ok && ld.Op == token.MUL {
+			if al, isAlloc := ld.X.(*ssa.Alloc); isAlloc && computedLocal(al, 0) {
+				return false
+			}
+		}
 		return true
 	case *ssa.UnOp:
 		if x.Op == token.MUL {
 			if r, p, ok := pathStr(x.X); ok {
-				if _, isAlloc := r.(*ssa.Alloc); isAlloc && p != "" {
+				if al, isAlloc := r.(*ssa.Alloc); isAlloc && p != "" {
+					return !computedLocal(al, 0)
+				}
+			}
+		}
+	}
+	return false
+}
+
+// computedLocal: the local struct is filled in at the site, field by field (or copied from a local that is): a
+// record the function computes, not one it reads back from a table.
+func computedLocal(al *ssa.Alloc, depth int) bool {
+	if al.Referrers() == nil || depth > 3 {
+		return false
+	}
+	for _, r := range *al.Referrers() {
+		switch x := r.(type) {
+		case *ssa.FieldAddr:
+			if x.Referrers() == nil {
+				continue
+			}
+			for _, u := range *x.Referrers() {
+				if st, ok := u.(*ssa.Store); ok && st.Addr == ssa.Value(x) {
+					return true
+				}
+			}
+		case *ssa.Store:
+			if x.Addr != ssa.Value(al) {
+				continue
+			}
+			if ld, ok := x.Val.(*ssa.UnOp); ok && ld.Op == token.MUL {
+				if src, isAlloc := ld.X.(*ssa.Alloc); isAlloc && src != al && computedLocal(src, depth+1) {
 					return true
 				}
 			}
